@@ -516,6 +516,20 @@ func c05Corrupt(t *testing.T) {
 				}
 				fh.Close()
 			}
+			if final != nil && len(damaged) > 0 {
+				// a damaged image that the library's own reader still accepted (all its
+				// counters readable by the uploader) is still accepted after the host's
+				// operations: otherwise every other counter's value is lost with it
+				if fi, err := os.Stat(damagedPath); err == nil && fi.Size() == int64(len(final)) {
+					if _, err := Parse(damagedPath, damaged); err == nil {
+						r.Hit("readable-before")
+						if _, err2 := Parse(damagedPath, final); err2 != nil {
+							r.Violate("file-unreadable-after-host-ops:"+strings.SplitN(class, "+", 2)[0], fmt.Sprintf("the damaged file at rest (vfDamage class %s) was still readable by counter.Parse with all its counters; after the host's increments Parse rejects it (%v): the values of all other counters are lost", class, err2),
+								verifrt.CaseReplay(i, map[string]any{"class": class, "input": vfSaveInput(r, "C05", damaged)}))
+						}
+					}
+				}
+			}
 			if final != nil {
 				for k := 0; k < 3; k++ {
 					nm := fmt.Sprintf("verif/bystander/%d", k)
@@ -572,7 +586,7 @@ func c05Corrupt(t *testing.T) {
 			}
 		}
 	})
-	res.Require("bystander-checked", "damage:cycle-2", "damage:next-self", "damage:limit-wrap", "damage:limit", "damage:hdrlen-small", "damage:truncate", "damage:random-bytes", "damage:head-bad")
+	res.Require("bystander-checked", "readable-before", "damage:cycle-2", "damage:next-self", "damage:limit-wrap", "damage:limit", "damage:limit-in-table", "damage:hdrlen-small", "damage:truncate", "damage:random-bytes", "damage:head-bad")
 	if err := res.Write(); err != nil {
 		t.Fatal(err)
 	}
@@ -591,6 +605,12 @@ var c05Damages = append(append([]vfDamage{}, vfDamages...),
 			return nil
 		}
 		return d[:verifref.PageSize*(1+r.Intn(pages-1))]
+	}},
+	vfDamage{"limit-in-table", func(r *verifrt.Rand, d []byte, cf *verifref.CounterFile) []byte {
+		// a limit that points into the hash table (whose empty stretches are
+		// as zero as unused record space)
+		vfPut32(d, cf.HdrLen, cf.HdrLen+4+uint32(r.Intn(4*verifref.NumHash)))
+		return d
 	}},
 	vfDamage{"limit-page-edge", func(r *verifrt.Rand, d []byte, cf *verifref.CounterFile) []byte {
 		vfPut32(d, cf.HdrLen, uint32(len(d)-verifrt.Pick(r, []int{0, 32, 64, 4, 16})))
